@@ -39,7 +39,7 @@ GRelayout == \E f \in File :
 \* the editor closes a document and opens it again with the text it had (the server keeps the buffer of a closed document):
 \* nothing changes but the root
 GReopen == \E f \in File :
-             /\ open[f] # None /\ root # f
+             /\ open[f] # None
              /\ Open(f, open[f]) /\ hist' = Append(hist, [ev |-> "Reopen", file |-> f, t |-> open[f]])
 \* the editor saves a document: nothing changes for the server (the buffer stays the source of truth, the disk of the model is
 \* left alone: the editor's write may not have happened yet)
